@@ -100,7 +100,7 @@ struct PlanDataT<
 	Bounds tasksBounds;
 	TasksBits tasksSuccesses;
 	TasksBits tasksFailures;
-	bool planExists;
+	bool planExists = false;
 	TaskStatus headStatus;
 	TaskStatus subStatus;
 
@@ -151,7 +151,7 @@ struct PlanDataT<
 	Bounds tasksBounds;
 	TasksBits tasksSuccesses;
 	TasksBits tasksFailures;
-	bool planExists;
+	bool planExists = false;
 	TaskStatus headStatus;
 	TaskStatus subStatus;
 
